@@ -92,14 +92,21 @@ var HTMLBlockLike = set(`
 
 // HTML Living Standard §13.1.2.4 optional tags: "A p element's end tag can be omitted if
 // the p element is immediately followed by an … element".
+// Without `table`: the list is a conformance rule for documents in no-quirks mode. The parser (§13.2.6.4.7,
+// "A start tag whose tag name is table") closes an open p element only "if the Document is not set to quirks mode" —
+// and a minifier does not know the mode of the document (no doctype, a legacy doctype: quirks), so `</p>` in front
+// of `<table>` is the one case of the list in which the omission changes the tree of a real-world document.
 var HTMLPClosers = set(`
  address article aside blockquote details dialog div dl fieldset figcaption figure footer form
- h1 h2 h3 h4 h5 h6 header hgroup hr main menu nav ol p pre search section table ul`)
+ h1 h2 h3 h4 h5 h6 header hgroup hr main menu nav ol p pre search section ul`)
 
 // … "or if there is no more content in the parent element and the parent element is an
 // HTML element that is not an a, audio, del, ins, map, noscript, or video element, or an
 // autonomous custom element".
-var HTMLPKeepParents = set(`a audio del ins map noscript video`)
+// Plus canvas and slot: both have a transparent content model (a p as their last child is conforming) and neither is
+// in the tree builder's "special" category, so their end tag is ignored while a p is open (§13.2.6.4.7 "any other
+// end tag") exactly as for the seven the standard names.
+var HTMLPKeepParents = set(`a audio canvas del ins map noscript slot video`)
 
 // HTML Living Standard §13.1.2.4: elements whose end tag may be omitted (in a suitable context).
 var HTMLOptionalEndTag = set(`
